@@ -681,7 +681,37 @@ func c18Wire(c *Ctx) {
 	c.Examined(fn)
 	var widths []int
 	be := true
+	// an integer put into the output: binary.Write(w, order, v), or order.PutUintN(dst, v) / order.AppendUintN(dst, v)
+	putWidth := func(ci ssa.CallInstruction) (int, bool, bool) { // width, big-endian, ok
+		f := calleeOf(ci.Common())
+		if f == nil || f.Pkg() == nil || f.Pkg().Path() != "encoding/binary" {
+			return 0, false, false
+		}
+		w := 0
+		switch {
+		case strings.HasSuffix(f.Name(), "Uint16") && (strings.HasPrefix(f.Name(), "Put") || strings.HasPrefix(f.Name(), "Append")):
+			w = 2
+		case strings.HasSuffix(f.Name(), "Uint32") && (strings.HasPrefix(f.Name(), "Put") || strings.HasPrefix(f.Name(), "Append")):
+			w = 4
+		case strings.HasSuffix(f.Name(), "Uint64") && (strings.HasPrefix(f.Name(), "Put") || strings.HasPrefix(f.Name(), "Append")):
+			w = 8
+		default:
+			return 0, false, false
+		}
+		recv := ""
+		if sig, ok := f.Type().(*types.Signature); ok && sig.Recv() != nil {
+			recv = sig.Recv().Type().String()
+		}
+		return w, strings.Contains(recv, "bigEndian"), true
+	}
 	for _, ci := range callInstrs(fn) {
+		if w, isBE, ok := putWidth(ci); ok {
+			widths = append(widths, w)
+			if !isBE {
+				be = false
+			}
+			continue
+		}
 		f := calleeOf(ci.Common())
 		if f == nil || f.Pkg() == nil || f.Pkg().Path() != "encoding/binary" || f.Name() != "Write" {
 			continue
@@ -708,6 +738,10 @@ func c18Wire(c *Ctx) {
 	for _, ci := range callInstrs(mm) {
 		f := calleeOf(ci.Common())
 		if f == nil {
+			continue
+		}
+		if w, _, ok := putWidth(ci); ok {
+			seq = append(seq, fmt.Sprintf("int%d", 8*w))
 			continue
 		}
 		switch f.Name() {
